@@ -417,6 +417,9 @@ func BuildNode(n Node, pool *v1.NodePool, now time.Time) (*v1.NodeClaim, *corev1
 		Status: corev1.NodeStatus{Capacity: rl(n.Cap.CPU, n.Cap.Mem, n.Cap.Pods), Allocatable: rl(n.Alloc.CPU, n.Alloc.Mem, n.Alloc.Pods)},
 	}
 	world.SetNodeReady(node, true, now)
+	if n.NoHost { // C18
+		defer func() { delete(node.Labels, corev1.LabelHostname) }()
+	}
 	switch n.Stage {
 	case "initialized":
 		node.Labels[v1.NodeRegisteredLabelKey] = "true"
